@@ -17,6 +17,10 @@ CHECKS = {
    text="TLA+ spec LossRecovery (frames resolved at most once and exactly once when their packet leaves the history, bytes-in-flight balance, bogus ACK => PROTOCOL_VIOLATION, timer obligation; loss decisions left open) model-checked by TLC per space; TLC enumerates all stimulus sequences of length 3-4 over sends/ACK patterns/timer/probes/drops/Retry/migration for both perspectives, seeded walks beyond; each runs on the real sentPacketHandler with recording frame handlers and every call's callbacks, history, bytes in flight, alarm and send mode are validated by TLC.",
    note="Trusted: TLC, harness projection (history contents, bytesInFlight read in-package; skipping generator re-created with a short period). Loss thresholds and PTO arithmetic are not checked. One open known finding (ACK for an old skipped number accepted).",
    technique="TLA+ model checking (TLC) + TLC-enumerated stimuli replayed into the real code + TLC trace validation"),
+ "C15": dict(engine="StreamsMap", design="5 C15",
+   text="TLA+ spec StreamsMap (incoming slot accounting and MAX_STREAMS credit, STREAM_LIMIT_ERROR / STREAM_STATE_ERROR rules, outgoing ordinals within the peer's limit, STREAMS_BLOCKED once per limit, FIFO service of OpenStreamSync waiters, accept exactly once in order) model-checked by TLC; TLC enumerates all stimulus sequences of length 3-5, seeded walks beyond, for both perspectives and stream types and three limit settings; executed on the real streamsMap with concurrent callers in a synctest bubble; every result, queued frame and wake-up validated by TLC, incl. 'no starved waiter at quiescence'.",
+   note="Trusted: TLC, go1.26 synctest (quiescence detection), harness. Races (credit vs. new caller / vs. cancellation of the head waiter) are provoked without controlling the scheduler; at most one concurrent AcceptStream caller. 0-RTT reset maps not exercised yet.",
+   technique="TLA+ model checking (TLC) + TLC-enumerated stimuli replayed into the real code + TLC trace validation"),
 }
 NA = {}
 
